@@ -214,8 +214,8 @@ class SerializerBase(object):
             elif classname == "Pyro5.util.MsgpackSerializer":
                 return MsgpackSerializer()
         elif classname.startswith("Pyro5.errors."):
-            errortype = getattr(errors, classname.split('.', 2)[2])
-            if issubclass(errortype, errors.PyroError):
+            errortype = getattr(errors, classname.split('.', 2)[2], None)    # (None: a class this version doesn't have)
+            if isinstance(errortype, type) and issubclass(errortype, errors.PyroError):
                 return SerializerBase.make_exception(errortype, data)
         elif classname == "struct.error":
             return SerializerBase.make_exception(struct.error, data)
@@ -230,13 +230,13 @@ class SerializerBase(object):
             # translate to the appropriate namespace...
             namespace, short_classname = classname.split('.', 1)
             if namespace in ("builtins", "exceptions"):
-                exceptiontype = getattr(builtins, short_classname)
-                if issubclass(exceptiontype, BaseException):
+                exceptiontype = getattr(builtins, short_classname, None)
+                if isinstance(exceptiontype, type) and issubclass(exceptiontype, BaseException):
                     return SerializerBase.make_exception(exceptiontype, data)
             elif namespace == "sqlite3" and short_classname.endswith("Error"):
                 import sqlite3
-                exceptiontype = getattr(sqlite3, short_classname)
-                if issubclass(exceptiontype, BaseException):
+                exceptiontype = getattr(sqlite3, short_classname, None)
+                if isinstance(exceptiontype, type) and issubclass(exceptiontype, BaseException):
                     return SerializerBase.make_exception(exceptiontype, data)
         log.warning("unsupported serialized class: " + classname)
         raise errors.SerializeError("unsupported serialized class: " + classname)
